@@ -313,7 +313,7 @@ def needRepublish (s : State) (now : Nat) : Bool :=
 /-- `Oti::max_transfer_length` (usize arithmetic is checked in the dev profile; RS-GF(2^m) is `todo!()`) -/
 def maxTransferLength (o : Oti) : Rs Nat :=
   if o.enc = 2 then .error "todo" else
-  let limit := if o.enc = 6 then 0xFFFFFFFFFFF else 0xFFFFFFFFFFFF
+  let limit := if o.enc = 6 then 0xFFFFFFFFFF else 0xFFFFFFFFFFFF   -- RaptorQ: 40 bits, others 48 bits
   let maxSbn := if o.enc = 0 then 65535 else if o.enc = 5 then 255 else if o.enc = 129 then 4294967295
                 else if o.enc = 6 then 255 else 65535
   match u64mul o.esl o.maxSbl with
@@ -346,6 +346,9 @@ def rsRefused (o : Oti) (transferLength : Nat) : Rs Bool :=
     | .ok q => .ok (decide (q.1 + o.parity > 256))
   else .ok false
 
+/-- largest number of source symbols of one block the code supports -/
+def kMax (enc : Nat) : Nat := if enc = 6 then 56403 else 8192
+
 /-- the OTI a `FileDesc` ends up with: override or default, Z := max(number of source blocks, 1) for
     RaptorQ / Raptor (`FileDesc::new`).  `none` = `Err`, `.error` = panic. -/
 def effectiveOti (dflt : Oti) (a : ObjAttrs) : Rs (Option Oti) :=
@@ -362,8 +365,10 @@ def effectiveOti (dflt : Oti) (a : ObjAttrs) : Rs (Option Oti) :=
       match Partition.blockPartitioning o.maxSbl a.transferLength o.esl with
       | .error w => .error w
       | .ok q =>
+        -- a source block larger than the code supports (K'_max = 56403 for RaptorQ, K_max = 8192 for Raptor): `Err`
+        if q.1 > kMax o.enc then .ok none
         -- scheme parameters missing, or more source blocks than Z can hold (u8 for RaptorQ, u16 for Raptor): `Err`
-        if o.scheme.isNone then .ok none
+        else if o.scheme.isNone then .ok none
         else if (o.enc = 6 ∧ q.2.2.2 > 255) ∨ (o.enc = 1 ∧ q.2.2.2 > 65535) then .ok none
         else .ok (some (setZ o (max q.2.2.2 1)))
     else .ok (some o)
